@@ -50,7 +50,7 @@ func (n *Node) Commit(ops []AppOp) (txnID int64, err error) {
 			if n.Native {
 				var val []byte
 				if op.Kind == OpDel {
-					val = MakeHdr(op.TS, uint64(txnID), 1, 0, nil)
+					val = MakeHdr(op.TS, uint64(txnID), 1, 0, op.Val) // op.Val is normally empty
 				} else {
 					val = MakeHdr(op.TS, uint64(txnID), 0, op.Extra, op.Val)
 				}
@@ -102,7 +102,10 @@ type Workload struct {
 	DBIKeys  map[string][]string
 	DBIFlags map[string]uint
 	DupVals  []string // value pool for dupsort DBIs
-	seq      int
+	// DelPayload: permille of native deletes where the (misbehaving)
+	// application sets the deleted flag but leaves payload bytes behind
+	DelPayload int
+	seq        int
 }
 
 // Gen draws one transaction for the node.
@@ -123,6 +126,9 @@ func (w *Workload) Gen(t *Tape, n *Node, now time.Time, stored Logical) []AppOp 
 		}
 		if t.Chance("app-del", w.DelRate) {
 			op.Kind = OpDel
+			if n.Native && t.Chance("app-del-payload", w.DelPayload) {
+				op.Val = []byte("stale-payload")
+			}
 		} else {
 			op.Kind = OpPut
 			switch {
